@@ -1599,6 +1599,100 @@ Section Real.
     - intros k. rewrite A4, B4, C4. apply CF_select; exact Hlen.
   Qed.
 
+  (* ---- n-ary superposition: a run = the sum of the single-bias runs ---------------------------------- *)
+  Definition nth_force (outs : list (@out R BS)) (j k : nat) : R :=
+    match nth_error outs j with Some o => coord_force Rops (o_vars o) k | None => 0 end.
+  Definition nth_energy (outs : list (@out R BS)) (j : nat) : R :=
+    match nth_error outs j with Some o => o_energy o | None => 0 end.
+
+  Lemma Forall3_nth (lAB lA lB : list (@out R BS)) : Forall3 out_add lAB lA lB ->
+    forall j, (forall k, nth_force lAB j k = nth_force lA j k + nth_force lB j k) /\
+              nth_energy lAB j = nth_energy lA j + nth_energy lB j.
+  Proof.
+    induction 1 as [|a b c la lb lc (H1 & H2 & H3 & H4) Hr IH]; intros j.
+    - unfold nth_force, nth_energy. destruct j; cbn; split; intros; lra.
+    - destruct j as [|j]; [|apply IH].
+      unfold nth_force, nth_energy. cbn [nth_error]. split; [exact H4 | exact H3].
+  Qed.
+
+  Lemma select_head {A} (c : A) r :
+    select (true :: repeat false (length r)) (c :: r) = [c] /\
+    select (map negb (true :: repeat false (length r))) (c :: r) = r.
+  Proof.
+    cbn [select map negb]. split.
+    - f_equal. induction r as [|y r IH]; cbn [length repeat select]; [reflexivity | exact IH].
+    - induction r as [|y r IH]; cbn [length repeat select map negb]; [reflexivity | rewrite IH; reflexivity].
+  Qed.
+
+  Lemma run_nobias_zero it0 tsfs evs j :
+    (forall k, nth_force (run_cfg Rops fixed efix it0 tsfs [] evs) j k = 0) /\
+    nth_energy (run_cfg Rops fixed efix it0 tsfs [] evs) j = 0.
+  Proof.
+    pose proof (run_cfg_closed it0 tsfs [] evs) as H.
+    pose proof (btrace_lengths (length tsfs) evs it0 true (map (init_bias Rops) (@nil (@bias_cfg R BS)))) as HL.
+    revert j HL. induction H as [|o t lo lt Ho Hr IH]; intros j HL.
+    - unfold nth_force, nth_energy. destruct j; cbn; auto.
+    - inversion HL as [|? ? L1 L2]; subst. destruct j as [|j]; [|apply IH; exact L2].
+      unfold nth_force, nth_energy. cbn [nth_error].
+      destruct t as [[it bs] xs]. cbn [fst snd length map] in L1. destruct bs; [|discriminate].
+      destruct Ho as (_ & _ & O3 & O4). split.
+      + intros k. rewrite O4. unfold CF. apply rsum_map_zero. intros i _. unfold VF. cbn [map rsum]. lra.
+      + rewrite O3. reflexivity.
+  Qed.
+
+  Theorem superposition_all it0 tsfs (cfgs : list (@bias_cfg R BS)) evs j :
+    (forall k, nth_force (run_cfg Rops fixed efix it0 tsfs cfgs evs) j k
+               = rsum (map (fun c => nth_force (run_cfg Rops fixed efix it0 tsfs [c] evs) j k) cfgs)) /\
+    nth_energy (run_cfg Rops fixed efix it0 tsfs cfgs evs) j
+    = rsum (map (fun c => nth_energy (run_cfg Rops fixed efix it0 tsfs [c] evs) j) cfgs).
+  Proof.
+    induction cfgs as [|c r [IH1 IH2]].
+    - destruct (run_nobias_zero it0 tsfs evs j) as [Z1 Z2]. cbn [map rsum]. auto.
+    - destruct (select_head c r) as [S1 S2].
+      pose proof (superposition it0 tsfs (c :: r) (true :: repeat false (length r)) evs) as H.
+      rewrite S1, S2 in H.
+      specialize (H ltac:(cbn [length]; rewrite repeat_length; reflexivity)).
+      destruct (Forall3_nth _ _ _ H j) as [F1 F2]. cbn [map rsum]. split.
+      + intros k. rewrite F1, IH1. reflexivity.
+      + rewrite F2, IH2. reflexivity.
+  Qed.
+
+  (* forces delivered over a window of N calls starting at call j *)
+  Definition window_force (outs : list (@out R BS)) (j N k : nat) : R :=
+    rsum (map (fun t => nth_force outs (j + t) k) (seq 0 N)).
+
+  Lemma rsum_exchange {A B} (f : A -> B -> R) (la : list A) (lb : list B) :
+    rsum (map (fun a => rsum (map (fun b => f a b) lb)) la) = rsum (map (fun b => rsum (map (fun a => f a b) la)) lb).
+  Proof.
+    induction la as [|a la IH]; cbn [map rsum].
+    - symmetry. apply rsum_map_zero. reflexivity.
+    - rewrite IH. rewrite <- rsum_map_add. reflexivity.
+  Qed.
+
+  (* the impulse delivered by a set of biases over any window is the sum of the impulses of its members *)
+  Theorem impulse_shared it0 tsfs (cfgs : list (@bias_cfg R BS)) evs j N k :
+    window_force (run_cfg Rops fixed efix it0 tsfs cfgs evs) j N k
+    = rsum (map (fun c => window_force (run_cfg Rops fixed efix it0 tsfs [c] evs) j N k) cfgs).
+  Proof.
+    unfold window_force.
+    rewrite (rsum_exchange (fun c t => nth_force (run_cfg Rops fixed efix it0 tsfs [c] evs) (j + t) k) cfgs (seq 0 N)).
+    apply rsum_map_ext. intros t _. apply (superposition_all it0 tsfs cfgs evs (j + t)).
+  Qed.
+
+  Lemma window_force_firstn (outs : list (@out R BS)) j N k : (j + N <= length outs)%nat ->
+    window_force outs j N k = rsum (map (fun o => coord_force Rops (o_vars o) k) (firstn N (skipn j outs))).
+  Proof.
+    unfold window_force. revert j. induction N as [|N IH]; intros j H; [reflexivity|].
+    rewrite <- cons_seq, <- seq_shift. cbn [map rsum]. rewrite map_map.
+    destruct (nth_error outs j) as [o|] eqn:E; [|apply nth_error_None in E; lia].
+    assert (Sk : skipn j outs = o :: skipn (S j) outs).
+    { clear - E. revert outs E. induction j as [|j IHj]; intros outs E; destruct outs as [|y l]; try discriminate.
+      - cbn in E. inversion E; reflexivity.
+      - cbn [nth_error] in E. cbn [skipn]. apply IHj; exact E. }
+    rewrite Sk. cbn [firstn map rsum]. unfold nth_force at 1. rewrite Nat.add_0_r, E. f_equal.
+    rewrite <- (IH (S j)) by lia. apply rsum_map_ext. intros t _. f_equal. lia.
+  Qed.
+
   (* ---- a bias that is inactive or does not apply forces contributes nothing ----------------------- *)
   Definition mask1 (p q : nat) : list bool := repeat true p ++ false :: repeat true q.
 
